@@ -543,6 +543,33 @@ class Driver:
         return {"kind": "set", "path": path, "raised": exc, "label": label, "norm": norm, "pred": pred, "before": before,
                 "listed": True, "node": nd, "value": plain(new), "superset": True}
 
+    def _op_set_dict_dotted(self, op):
+        """cfg['path.to.dict.key'] = value: a dotted path that continues into a typed dict value."""
+        cc, cfg = self.cc, self.cfg
+        path = self.concrete(op["path"])
+        if path is None or "[" in path:
+            return None
+        nd = self.node(path)
+        try:
+            cur = spec.get_path(cfg, path)
+        except Exception:
+            return None
+        if nd is None or nd["kind"] != "field" or nd["family"] != "dict" or not isinstance(cur, dict):
+            return None
+        k, v = op["kv"]
+        if not isinstance(k, str) or "." in k or not k:
+            return None
+        kf, vf = nd.get("keyf"), nd.get("valf")
+        a = model.accepts(kf, k, self.env)[0] if kf else True
+        b = model.accepts(vf, v, self.env)[0] if vf else True
+        label = False if (a is False or b is False) else (None if (a is None or b is None) else True)
+        before = self.snapshot()
+        exc = self._run(lambda: cfg.__setitem__(path + "." + k, spec.realize(cc, v)))
+        pred = Prediction(clone(before.values), dict(before.flags))
+        pset(pred.values, path, Unknown)
+        return {"kind": "set", "path": path, "raised": exc, "label": label, "pred": pred, "before": before, "listed": True,
+                "node": nd, "value": {k: v}, "dotted_into_dict": True}
+
     def _op_copy(self, op):
         cc, cfg = self.cc, self.cfg
         src, dst = self.concrete(op["src"]), self.concrete(op["dst"])
@@ -720,6 +747,15 @@ class Driver:
             return None
         try:
             doc = cc.ConfigFormat.get(fmt).dumps(self.cfg, tree)
+            for name, content in (op.get("make_files") or {}).items():
+                # include files the document refers to: a good one (a tree in the same format) or an unparsable one
+                path = os.path.join(self.ctx.dir, name)
+                with open(path, "wb") as fp:
+                    if content == "corrupt":
+                        good = cc.ConfigFormat.get(fmt).dumps(self.cfg, {"zz": 1})
+                        fp.write(corrupt_doc(good, fmt, "garbage")[0])
+                    else:
+                        fp.write(cc.ConfigFormat.get(fmt).dumps(self.cfg, content))
         except Exception:
             return None
         corrupt = op.get("corrupt")
